@@ -120,6 +120,15 @@ DIMS_POOL = [(2, 2, 2), (2, 2, 3), (3, 2, 2), (2, 2, 4), (2, 3, 3), (2, 2, 5), (
              (2, 3, 4), (3, 3, 4), (2, 2, 6)]
 
 
+# unit of length: the same mesh multiplied by 2^k (exact), ~1e-4 ... ~1e3
+SCALE_EXPS = [-13, -10, -7, -3, 0, 0, 0, 3, 7, 10]
+
+
+def floor_of(mesh):
+    """entries of a gradient operator scale like 1/length"""
+    return Fr(2) ** (-mesh.get('scale_exp', 0))
+
+
 def all_kw():
     out = []
     for mode in ('nodal', 'elemental'):
@@ -143,7 +152,7 @@ def exact_volumes(mesh):
     """element volumes computed independently of femio, exactly, where that is
     possible: tets (det/6) and hexes that are parallelepipeds; else None"""
     inc = G.incidence(mesh)
-    P = mesh['xyz']
+    P = [tuple(Fr(c) for c in p) for p in mesh['xyz']]
     out = []
     for e in inc:
         p = [P[k] for k in e]
@@ -198,6 +207,7 @@ def plan(ctx):
         shuffle = not (idm == 'dense' and rng.random() < 0.5)
         mesh = G.gen_mesh(rng, et, dims, spacing_max=2, jitter=jitter, map_name=mp,
                           id_mode=idm, shuffle=shuffle)
+        G.scale_mesh(mesh, rng.choice(SCALE_EXPS))
         mesh['exact_vol'] = exact_volumes(mesh)
         mesh['min_degree'] = {md: min_degree(mesh, md) for md in ('nodal', 'elemental')}
         meshes[f'm{k}'] = mesh
@@ -259,7 +269,7 @@ def plan(ctx):
                     if not well_conditioned(nb, P):
                         kw['moment_matrix'] = False
                 t = rng.choice([0.5, 1.0, 3.0])
-                alpha = t / max(diam2, 1) ** 0.5 if kern == 'exp' else 2 * t / max(diam2, 1)
+                alpha = t / max(diam2, 1e-300) ** 0.5 if kern == 'exp' else 2 * t / max(diam2, 1e-300)
                 kw['kernel'] = kern
                 kw['alpha'] = alpha
                 cases.append({'mesh': mid, 'kw': kw, 'kernel': kern})
@@ -298,7 +308,7 @@ def plan_extended(ctx):
         base = G.gen_mesh(rng, 'tet', tuple(rng.sample(dims, 3)), spacing_max=2, jitter=rng.random() < 0.6,
                           map_name=rng.choice(list(G.MAPS)), id_mode=rng.choice(['sparse', 'large']),
                           shuffle=True)
-        mesh = G.to_tet2(rng, base)
+        mesh = G.scale_mesh(G.to_tet2(rng, base), rng.choice(SCALE_EXPS))
         mesh['exact_vol'] = exact_volumes(mesh)
         mid = f'q{k}'
         meshes[mid] = mesh
@@ -317,11 +327,12 @@ def plan_extended(ctx):
             place(mid, kw, with_conv=rng.random() < 0.3)
         diam2 = max(sum((a - b) ** 2 for a, b in zip(p, mesh['xyz'][0])) for p in mesh['xyz'])
         place(mid, kwm('nodal', 1, True, True, True, order1_only=True, kernel='gauss',
-                       alpha=2.0 / max(diam2, 1)), with_conv=True)
+                       alpha=2.0 / max(diam2, 1e-300)), with_conv=True)
     mix_dims = [(2, 2, 3), (3, 2, 3), (2, 3, 3)] * (1 if quick else 4)
     for k, dims in enumerate(mix_dims):
         mesh = G.gen_mixed(rng, tuple(rng.sample(dims, 3)), map_name=rng.choice(list(G.MAPS)),
                            id_mode=rng.choice(['sparse', 'large']))
+        G.scale_mesh(mesh, rng.choice(SCALE_EXPS))
         mesh['exact_vol'] = exact_volumes(mesh)
         mid = f'x{k}'
         meshes[mid] = mesh
@@ -329,7 +340,7 @@ def plan_extended(ctx):
                    kwm('nodal', 2, True, False, True), kwm('nodal', rng.choice([2, 3]), True, True, True)]:
             place(mid, kw, with_conv=rng.random() < 0.5)
         diam2 = max(sum((a - b) ** 2 for a, b in zip(p, mesh['xyz'][0])) for p in mesh['xyz'])
-        place(mid, kwm('nodal', 1, True, True, True, kernel='exp', alpha=1.0 / max(diam2, 1) ** 0.5),
+        place(mid, kwm('nodal', 1, True, True, True, kernel='exp', alpha=1.0 / max(diam2, 1e-300) ** 0.5),
               with_conv=True)
     used = {c['mesh'] for c in cases}
     return {m: v for m, v in meshes.items() if m in used}, cases
@@ -446,10 +457,10 @@ def coq_file_for(batch, meshes, vols):
             impl = lib.coq_list([lib.coq_list([lib.coq_list([f'({j}%uint63, {enc(x)})' for j, x in row])
                                                for row in rows]) for rows in rows3])
             if c['kw'].get('order1_only'):
-                txt.append(f'Definition cm_{cid} := corr_matrices_x {q(tol)} true {coq_nat(meshes[mid]["k1"])} '
+                txt.append(f'Definition cm_{cid} := corr_matrices_x {q(tol)} {q(floor_of(meshes[mid]))} true {coq_nat(meshes[mid]["k1"])} '
                            f'{coq_opts(c["kw"])} mesh_{mid} evol_{mid} {impl}.')
             else:
-                txt.append(f'Definition cm_{cid} := corr_matrices {q(tol)} {coq_opts(c["kw"])} '
+                txt.append(f'Definition cm_{cid} := corr_matrices {q(tol)} {q(floor_of(meshes[mid]))} {coq_opts(c["kw"])} '
                            f'mesh_{mid} evol_{mid} {impl}.')
             txt.append(f'Goal True. idtac "@@ mat {cid}". Abort.')
             txt.append(f'Time Eval vm_compute in cm_{cid}.')
@@ -466,10 +477,10 @@ def coq_file_for(batch, meshes, vols):
             else:
                 g3 = '[]'
             if c['kw'].get('order1_only'):
-                txt.append(f'Definition cc_{cid} := conv_agree_x {q(tol)} true {coq_nat(meshes[mid]["k1"])} '
+                txt.append(f'Definition cc_{cid} := conv_agree_x {q(tol)} {q(floor_of(meshes[mid]))} true {coq_nat(meshes[mid]["k1"])} '
                            f'{coq_opts(c["kw"])} mesh_{mid} evol_{mid} {coq_nat(nfeat)} {data} {g3}.')
             else:
-                txt.append(f'Definition cc_{cid} := conv_agree {q(tol)} {coq_opts(c["kw"])} '
+                txt.append(f'Definition cc_{cid} := conv_agree {q(tol)} {q(floor_of(meshes[mid]))} {coq_opts(c["kw"])} '
                            f'mesh_{mid} evol_{mid} {coq_nat(nfeat)} {data} {g3}.')
             txt.append(f'Goal True. idtac "@@ conv {cid}". Abort.')
             txt.append(f'Time Eval vm_compute in cc_{cid}.')
@@ -544,14 +555,44 @@ def run_sequences(ctx, meshes, seqs, tag):
     return out
 
 
-def eval_sequence(meshes, sq, outs, wells):
+_STEP_CACHE = {}
+
+
+def step_info(mesh, mode, kw):
+    """positions, conditioning and node filter of the (possibly reduced) mesh
+    one call of a sequence works on"""
+    key = (id(mesh), mode, kw['n_hop'], bool(kw.get('order1_only')))
+    if key not in _STEP_CACHE:
+        vm = eff_mesh(mesh, dict(kw, mode=mode))
+        inc, nb, P = G.neighbourhoods(vm, mode, kw['n_hop'])
+        _STEP_CACHE[key] = {'P': P, 'well': well_conditioned(nb, P),
+                            'min_degree': min(len(x) for x in nb),
+                            'keep': vm.get('order1_keep') if vm is not mesh else None}
+    return _STEP_CACHE[key]
+
+
+def finish_steps(rng, mesh, mode, steps):
+    """fill per step: effective positions, conditioning, data (for all
+    vertices the function takes data for) and the rows the operator sees"""
+    P_all = G.neighbourhoods(mesh, mode, 1)[2]
+    for st in steps:
+        info = step_info(mesh, mode, st['kw'])
+        st['P'], st['well'] = info['P'], info['well']
+        if st['kind'] == 'conv':
+            if st.get('data') is None:
+                H.attach_data(rng, st, P_all)
+            if info['keep'] is not None:
+                st['data_eff'] = [st['data'][k] for k in info['keep']]
+            else:
+                st.pop('data_eff', None)
+    return steps
+
+
+def eval_sequence(meshes, sq, outs, wells=None):
     """-> list of (step index, check, detail)"""
-    mesh = meshes[sq['mesh']]
     bad = []
     for k, (st, (so, ref)) in enumerate(zip(sq['steps'], outs)):
-        kw = st['kw']
-        for check, detail in H.check_step(st, so, ref, sq['P'], wells[(sq['mesh'], sq['mode'], kw['n_hop'])],
-                                          rows_from_coo, fr_hex):
+        for check, detail in H.check_step(st, so, ref, st['P'], st['well'], rows_from_coo, fr_hex):
             bad.append((k, check, detail))
     return bad
 
@@ -560,36 +601,41 @@ def history_stream(ctx, meshes, cost_cache, corpus_seqs=()):
     rng = ctx.rng
     quick = ctx.tier == 'quick'
     n_seq, length = (12, 7) if quick else (80, 10)
-    wells, cands = {}, []
+    wells, cands, cands2 = {}, [], []
     for mid, mesh in meshes.items():
-        if mesh.get('descr', {}).get('malformed') or 'min_degree' not in mesh:
+        if mesh.get('descr', {}).get('malformed'):
+            continue
+        if mesh.get('k1'):
+            # second-order mesh (node ids shuffled in storage): order1_only is toggled
+            if len(mesh['node_ids']) <= (50 if quick else 80):
+                cands2.append((mid, 'nodal'))
+            continue
+        if 'min_degree' not in mesh:
             continue
         for mode in ('nodal', 'elemental'):
             n = len(mesh['node_ids']) if mode == 'nodal' else len(mesh['conn'])
             if mesh['min_degree'][mode] < 1 or not (5 <= n <= (20 if quick else 40)):
                 continue
-            for hop in (1, 2, 3):
-                inc, nb, P = G.neighbourhoods(mesh, mode, hop)
-                wells[(mid, mode, hop)] = well_conditioned(nb, P)
-            if wells[(mid, mode, 1)] or wells[(mid, mode, 2)]:
+            base = dict(mode=mode, n_hop=1)
+            if step_info(mesh, mode, base)['well'] or step_info(mesh, mode, dict(base, n_hop=2))['well']:
                 cands.append((mid, mode))
     rng.shuffle(cands)
+    rng.shuffle(cands2)
     seqs = []
     for mid, mode, steps in corpus_seqs:          # corpus first
-        for hop in (1, 2, 3):
-            inc, nb, P = G.neighbourhoods(meshes[mid], mode, hop)
-            wells[(mid, mode, hop)] = well_conditioned(nb, P)
-        inc, nb, P = G.neighbourhoods(meshes[mid], mode, 1)
-        seqs.append({'mesh': mid, 'mode': mode, 'steps': steps, 'P': P})
-    for mid, mode in cands[:n_seq]:
         mesh = meshes[mid]
-        inc, nb, P = G.neighbourhoods(mesh, mode, 1)
+        finish_steps(rng, mesh, mode, steps)
+        seqs.append({'mesh': mid, 'mode': mode, 'steps': steps, 'P': G.neighbourhoods(mesh, mode, 1)[2]})
+    for mid, mode in cands[:n_seq] + cands2[:(4 if quick else 12)]:
+        mesh = meshes[mid]
         diam2 = max(sum((a - b) ** 2 for a, b in zip(p, mesh['xyz'][0])) for p in mesh['xyz'])
-        scales = {'exp': 1.0 / max(diam2, 1) ** 0.5, 'gauss': 2.0 / max(diam2, 1)}
+        scales = {'exp': 1.0 / max(diam2, 1e-300) ** 0.5, 'gauss': 2.0 / max(diam2, 1e-300)}
         steps = H.make_sequence(rng, mesh, mode, length,
-                                {h: wells[(mid, mode, h)] for h in (1, 2, 3)}, scales)
-        H.attach_data(rng, steps, P)
-        seqs.append({'mesh': mid, 'mode': mode, 'steps': steps, 'P': P})
+                                lambda kw, mesh=mesh, mode=mode: step_info(mesh, mode, kw)['well']
+                                and step_info(mesh, mode, kw)['min_degree'] >= 1,
+                                scales, second_order=bool(mesh.get('k1')))
+        finish_steps(rng, mesh, mode, steps)
+        seqs.append({'mesh': mid, 'mode': mode, 'steps': steps, 'P': G.neighbourhoods(mesh, mode, 1)[2]})
     if not seqs:
         return [], [], []
     outs = run_sequences(ctx, meshes, seqs, 'hist')
@@ -626,15 +672,15 @@ def history_stream(ctx, meshes, cost_cache, corpus_seqs=()):
             kw = st['kw']
             if st['kind'] != 'conv' or kw.get('kernel') or 'error' in so:
                 continue
-            if kw['moment_matrix'] and not wells[(sq['mesh'], sq['mode'], kw['n_hop'])]:
+            if kw['moment_matrix'] and not st['well']:
                 continue
             if kw['consider_volume'] and mesh.get('exact_vol') is None:
                 continue
-            est = cost_estimate(mesh, kw, cost_cache)
+            est = cost_estimate(eff_mesh(mesh, kw), kw, cost_cache)
             if est > 2.0:
                 continue
             hc = {'id': 100000 + len(hcases), 'mesh': sq['mesh'], 'kw': kw, 'data': st['data'],
-                  'n': len(sq['P']), 'est': 4 * est, 'sequence': sq, 'failing_step': k, 'history': True,
+                  'n': len(st['P']), 'est': 4 * est, 'sequence': sq, 'failing_step': k, 'history': True,
                   'seq_id': id(sq)}
             hcases.append(hc)
             items.append((hc['id'], hc, None, so))
@@ -772,7 +818,7 @@ def describe(mesh, c):
 
 
 def replay_case(mesh, c, vols=None):
-    out = {'mesh': {k: mesh[k] for k in ('etype', 'node_ids', 'xyz', 'elem_ids', 'conn', 'blocks', 'k1')
+    out = {'mesh': {k: mesh[k] for k in ('etype', 'node_ids', 'xyz', 'elem_ids', 'conn', 'blocks', 'k1', 'scale_exp')
                     if k in mesh},
            'kw': c['kw'], 'data': c.get('data'), 'affine': c.get('affine')}
     if c.get('sequence'):
@@ -912,6 +958,7 @@ def main(ctx):
         ctx.count('kernel:' + (kw.get('kernel') or 'none'))
         ctx.count('ids:' + str(mesh['descr'].get('ids', 'corpus')))
         ctx.count('map:' + str(mesh['descr'].get('map', 'corpus')))
+        ctx.count('length-unit:' + str(mesh['descr'].get('scale', '2^0')))
         ctx.count('vertices:%s' % ('<=12' if c['n'] <= 12 else '<=30' if c['n'] <= 30 else '>30'))
         if kw['moment_matrix'] and not well:
             # outside the property's precondition (neighbourhoods must span
@@ -1078,14 +1125,10 @@ def replay(path):
                 st['data'] = [[Fr(x) for x in r] for r in st['data']]
             steps.append(st)
         mode = case.get('mode') or steps[-1]['kw']['mode']
-        wells = {}
-        for hop in (1, 2, 3):
-            inc, nb, P = G.neighbourhoods(mesh, mode, hop)
-            wells[('r0', mode, hop)] = well_conditioned(nb, P)
-        inc, nb, P = G.neighbourhoods(mesh, mode, 1)
-        sq = {'mesh': 'r0', 'mode': mode, 'steps': steps, 'P': P}
+        finish_steps(ctx.rng, mesh, mode, steps)
+        sq = {'mesh': 'r0', 'mode': mode, 'steps': steps, 'P': G.neighbourhoods(mesh, mode, 1)[2]}
         outs = run_sequences(ctx, meshes, [sq], 'replay_hist')[0]
-        bad = eval_sequence(meshes, sq, outs, wells)
+        bad = eval_sequence(meshes, sq, outs)
         for k, st in enumerate(steps):
             print(f'step {k}: {st["kind"]} {kw_key(st["kw"])} alpha={st["kw"].get("alpha")}:',
                   [b[1:] for b in bad if b[0] == k] or 'agrees with a fresh object')
